@@ -112,4 +112,60 @@ theorem verify_sign_of_interp (I : EdwardsInterp G valid φ) (H : Bytes → Byte
   rw [hk, hS]
   exact group_check I hAv hAφ hRv hRφ (hlt _)
 
+/-! ### key pairs: dalek's `[a mod L]B` vs RFC 8032's `[a]B`
+
+`seedKeypair` (dryoc/dalek) multiplies the base point by `a mod L`, RFC 8032 `publicKey`
+by the clamped `a` itself (`2^254 ≤ a < 2^255`, so `a ≠ a mod L`).  The two agree as
+group elements by `[L]B = 0`; to conclude that the 32-byte ENCODINGS agree one more curve
+fact is needed, which `EdwardsInterp` does not contain: the encoding depends only on the
+group element, not on the projective representative. -/
+
+/-- `EdwardsInterp` plus "equal group elements encode to equal bytes".  Like
+`EdwardsInterp` this is an UNPROVED hypothesis structure; no instance is constructed
+anywhere in this development. -/
+structure EdwardsInterpEnc (G : Type _) [AddCommGroup G] (valid : Point → Prop) (φ : Point → G) :
+    Prop extends EdwardsInterp G valid φ where
+  encode_congr : ∀ {P Q}, valid P → valid Q → φ P = φ Q → encodePoint P = encodePoint Q
+
+theorem le_clampHash_lt (h : Bytes) : le (clampHash h) < 2 ^ 256 := by
+  have h1 := le_lt (clampHash h)
+  have h2 : (clampHash h).length ≤ 32 := by
+    rw [clampHash_eq_clamp]; unfold Spec.X25519.clamp
+    simp only [List.length_modify, List.length_take]; omega
+  calc le (clampHash h) < 256 ^ (clampHash h).length := h1
+    _ ≤ 256 ^ 32 := Nat.pow_le_pow_right (by decide) h2
+    _ = 2 ^ 256 := by decide
+
+/-- the base-point multiples by `n mod L` and by `n` encode to the same bytes -/
+theorem encode_smul_mod (I : EdwardsInterpEnc G valid φ) (n : ℕ) (hn : n < 2 ^ 256) :
+    encodePoint (scalarMul (n % L) B) = encodePoint (scalarMul n B) := by
+  have I' := I.toEdwardsInterp
+  have hlt : n % L < 2 ^ 256 := Nat.lt_trans (Nat.mod_lt _ (by decide)) (by decide)
+  apply I.encode_congr (I'.valid_smul _ I'.valid_B) (I'.valid_smul _ I'.valid_B)
+  rw [I'.map_smul _ I'.valid_B hlt, I'.map_smul _ I'.valid_B hn]
+  exact mod_nsmul (φ B) L I'.order_B n
+
+/-- **for every seed**: the public key dryoc derives is RFC 8032's -/
+theorem seedKeypair_pk_eq_publicKey (I : EdwardsInterpEnc G valid φ) (seed : Bytes) :
+    (seedKeypair Spec.Sha512.sha512 seed).1 = publicKey seed := by
+  show encodePoint (scalarMul (le (clampHash (Spec.Sha512.sha512 seed)) % L) B) = _
+  rw [encode_smul_mod I _ (le_clampHash_lt _)]
+  simp [publicKey, secretExpand, Spec.X25519.decodeScalar25519, clampHash_eq_clamp, clamp_take]
+
+/-- **for every 32-byte seed and message, both modes**: signing with the key pair made by
+`seedKeypair` is RFC 8032 `signCore` on that seed -/
+theorem sign_seedKeypair_eq_signCore (I : EdwardsInterpEnc G valid φ) (seed msg : Bytes)
+    (ph : Bool) (hseed : seed.length = 32) :
+    signDetached Spec.Sha512.sha512 msg (seedKeypair Spec.Sha512.sha512 seed).2 ph
+      = signCore (if ph then dom2 1 [] else []) seed msg := by
+  have hsk : (seedKeypair Spec.Sha512.sha512 seed).2
+      = seed ++ (seedKeypair Spec.Sha512.sha512 seed).1 := rfl
+  have htake : ((seedKeypair Spec.Sha512.sha512 seed).2).take 32 = seed := by
+    rw [hsk, List.take_left' hseed]
+  have hdrop : ((seedKeypair Spec.Sha512.sha512 seed).2).drop 32 = publicKey seed := by
+    rw [hsk, List.drop_left' hseed, seedKeypair_pk_eq_publicKey I]
+  have := signDetached_eq_signCore msg (seedKeypair Spec.Sha512.sha512 seed).2 ph
+    (by rw [hdrop, htake])
+  rw [this, htake]
+
 end DryocVerif.Proofs.SignGroup
